@@ -3338,3 +3338,184 @@ def _r_level_relative_push(ctx, rule):
        'resolvers that re-level decisions are attached only where no such strategy lies below', 1)
 def r04_11(ctx, rule):
     _r_level_relative_push(ctx, rule)
+
+
+@extra('C03', 'R03.28', 'decisions.onesided is reached only where one of the two diffs handed to it is empty (it asserts that): evaluated over every chunk type of the list merger '
+       'and every (1 or 2 entries) x (1 or 2 entries) shape of concurrent inserts', 20)
+def r03_28(ctx, rule):
+    from ..consteval import reachable_arms, Abstract, Evaluator, UNKNOWN
+    from .c03 import chunk_switch_model
+    from ..util import if_chain
+    repo, cg = ctx.repo, ctx.cg
+    MG_ = 'nbdime.merging.generic'
+    m = chunk_switch_model(repo, cg)
+    bad = {}
+
+    def scan(stmts, ev, label, fid):
+        """walk statements, following only the arms that can execute; report onesided calls whose operands are both non-empty"""
+        for st in stmts:
+            if isinstance(st, ast.If):
+                for idx, body in reachable_arms(ev, st):
+                    scan(body, ev, label, fid)
+                continue
+            for c in ast.walk(st):
+                if isinstance(c, ast.Call) and isinstance(c.func, ast.Attribute) and c.func.attr == 'onesided' and len(c.args) >= 3:
+                    a, b = ev.ev(c.args[1]), ev.ev(c.args[2])
+                    if ev.truth(a) is True and ev.truth(b) is True:
+                        bad.setdefault(id(c), (c, fid, []))[2].append(label)
+    for la, lp, ra, rp in m['combos']:
+        ct = '%s%s/%s%s' % (la, lp, ra, rp)
+        ev = m['make_ev'](la, lp, ra, rp)
+        n0 = sum(len(v[2]) for v in bad.values())
+        for idx, body in reachable_arms(ev, m['bigif']):
+            scan(body, ev, 'chunk type ' + ct, MG_ + ':_merge_lists')
+        if sum(len(v[2]) for v in bad.values()) == n0:
+            ctx.inst(rule, MG_ + ':_merge_lists', 'chunk type %s' % ct, True, 'no onesided decision with two non-empty diffs', m['bigif'])
+    ci = repo.func(MG_ + ':_merge_concurrent_inserts')
+    ps = [a.arg for a in ci.args.args]
+    if len(ps) < 3:
+        raise AnalysisError('_merge_concurrent_inserts: signature changed')
+    for lt, rt in (('A', 'A'), ('AR', 'A'), ('A', 'AR'), ('AR', 'AR')):
+        n0 = sum(len(v[2]) for v in bad.values())
+        ev = Evaluator({ps[1]: Abstract(lt, m['letter_ops']), ps[2]: Abstract(rt, m['letter_ops'])}, m['consts'])
+        scan(ci.body, ev, 'inserts %s/%s' % (lt, rt), MG_ + ':_merge_concurrent_inserts')
+        if sum(len(v[2]) for v in bad.values()) == n0:
+            ctx.inst(rule, MG_ + ':_merge_concurrent_inserts', 'shapes %s/%s' % (lt, rt), True, 'no onesided decision with two non-empty diffs', ci)
+    for c, fid, labels in bad.values():
+        ctx.inst(rule, fid, repo.norm(c) + '  [%s]' % ', '.join(sorted(set(labels))), False,
+                 'both diffs handed to onesided() are non-empty here: the builder asserts "one diff should be empty in onesided merge decisions" and the merge aborts, under every '
+                 'strategy and every text-merge tool', c)
+
+
+@extra('C03', 'R03.29', 'the transient-path collection of the strategy table is always a collection: every value that can reach Strategies.transients (constructor keyword, default, '
+       'later assignment) supports `in` -- None there makes the first delete-versus-edit conflict raise TypeError', 2)
+def r03_29(ctx, rule):
+    from ..util import local_defs
+    repo, cg = ctx.repo, ctx.cg
+
+    def may_be_none(fn, e, defs, seen):
+        if e is None:
+            return True
+        if isinstance(e, ast.Constant):
+            return e.value is None
+        if isinstance(e, ast.IfExp):
+            return may_be_none(fn, e.body, defs, seen) or may_be_none(fn, e.orelse, defs, seen)
+        if isinstance(e, ast.BoolOp):
+            if isinstance(e.op, ast.Or):
+                return may_be_none(fn, e.values[-1], defs, seen)
+            return any(may_be_none(fn, v, defs, seen) for v in e.values)
+        if isinstance(e, ast.Name) and e.id not in seen:
+            seen.add(e.id)
+            ds = defs.get(e.id, [])
+            return any(may_be_none(fn, v, defs, seen) for v, k, st in ds if k == 'assign')
+        if isinstance(e, ast.Call) and isinstance(e.func, ast.Attribute) and e.func.attr in ('pop', 'get') and len(e.args) >= 1:
+            return len(e.args) < 2 or may_be_none(fn, e.args[1], defs, seen)
+        return False
+    n = 0
+    for fid, fn in sorted(repo.functions.items()):
+        if not fid.startswith(('nbdime.merging.', 'nbdime.utils:')):
+            continue
+        defs = local_defs(fn)
+        for x in walk_no_nested(fn):
+            val = None
+            if isinstance(x, ast.Call) and (dotted(x.func) or '').endswith('Strategies'):
+                val = next((k.value for k in x.keywords if k.arg == 'transients'), None)
+                if val is None:
+                    continue
+            elif isinstance(x, ast.Assign) and any(isinstance(t, ast.Attribute) and t.attr == 'transients' for t in x.targets):
+                val = x.value
+            else:
+                continue
+            n += 1
+            bad = may_be_none(fn, val, defs, set())
+            ctx.inst(rule, fid, repo.norm(x)[:90], not bad, 'a collection on every path' if not bad else
+                     '`%s` can be None: with transient-ignoring switched off the table then has transients=None, and is_diff_all_transients does `path in None` on the first '
+                     'delete-versus-edit conflict -- TypeError, the merge aborts' % ast.unparse(val)[:70], x)
+    # the constructor's parameter default
+    init = repo.functions.get('nbdime.utils:Strategies.__init__')
+    if init is not None:
+        a = init.args
+        for p_, d in list(zip(a.args[len(a.args) - len(a.defaults):], a.defaults)) + [(p_, d) for p_, d in zip(a.kwonlyargs, a.kw_defaults)]:
+            if p_.arg == 'transients':
+                n += 1
+                bad = d is None or (isinstance(d, ast.Constant) and d.value is None)
+                uses_direct = any(isinstance(x, ast.Assign) and isinstance(x.value, ast.Name) and x.value.id == 'transients' and
+                                  any(isinstance(t, ast.Attribute) and t.attr == 'transients' for t in x.targets) for x in walk_no_nested(init))
+                ctx.inst(rule, 'nbdime.utils:Strategies.__init__', 'default transients=%s' % (ast.unparse(d) if d is not None else 'None'), not (bad and uses_direct),
+                         'a collection' if not (bad and uses_direct) else 'the default None is stored as it is', init)
+    if n < 2:
+        raise AnalysisError('R03.29: fewer than two places that set Strategies.transients found')
+
+
+# ------------------------------------------------------------------------------------------------ rules that are necessary conditions of more than one property
+@extra('C01', 'R01.19', 'mapping diff entries are keyed by the iteration/lookup key itself, never by a transformed copy (C11 R11.6): a diff that names another key cannot be '
+       'applied to the document it was computed from', 8)
+def r01_19(ctx, rule):
+    from ..report import run_sub
+    from . import c11
+    run_sub(ctx, c11, {'R11.6': rule})
+
+
+@extra('C01', 'R01.20', 'items of the documents are never used as dict/set keys or memo keys (C02 R02.5): 1, 1.0 and True are one key, so a type change goes unreported', 1)
+def r01_20(ctx, rule):
+    from ..report import run_sub
+    from . import c02
+    run_sub(ctx, c02, {'R02.5': rule})
+
+
+@extra('C01', 'R01.21', 'the order-sensitive similarity predicate always receives (item of the first document, item of the second) (C02 R02.20): asked the other way round it '
+       'aligns a borderline pair that the sanity check rejects, and no diff is produced at all', 6)
+def r01_21(ctx, rule):
+    from ..report import run_sub
+    from . import c02
+    run_sub(ctx, c02, {'R02.20': rule})
+
+
+@extra('C02', 'R02.21', 'patches descend only into containers of the SAME kind (C11 R11.3): recursing into a list-vs-object or string-vs-array change raises instead of '
+       'reporting a replacement', 3)
+def r02_21(ctx, rule):
+    from ..report import run_sub
+    from . import c11
+    run_sub(ctx, c11, {'R11.3': rule})
+
+
+@extra('C05', 'R05.13', 'one line model (C07 R07.8): the differ, the patcher and the string merger split lines the same way -- a one-sided edit below a character only one '
+       'of them treats as a line end is applied at the wrong offset', 4)
+def r05_13(ctx, rule):
+    from ..report import run_sub
+    from . import c07
+    run_sub(ctx, c07, {'R07.8': rule})
+
+
+def _r_output_utf8(ctx, rule):
+    repo = ctx.repo
+    n = 0
+    for fid in ('nbdime.nbmergeapp:main_merge', 'nbdime.webapp.nbdimeserver:ApiMergeStoreHandler.post'):
+        fn = repo.functions.get(fid)
+        if fn is None:
+            continue
+        for c in calls_in(fn, nested=False):
+            if dotted(c.func) not in ('open', 'io.open', 'codecs.open'):
+                continue
+            mode = const_val(c.args[1]) if len(c.args) > 1 else next((const_val(k.value) for k in c.keywords if k.arg == 'mode'), 'r')
+            if not (isinstance(mode, str) and any(ch in mode for ch in 'wax+')) or 'b' in str(mode):
+                continue
+            n += 1
+            enc = next((const_val(k.value) for k in c.keywords if k.arg == 'encoding'), const_val(c.args[3]) if len(c.args) > 3 else None)
+            ok = isinstance(enc, str) and enc.lower().replace('-', '').replace('_', '') == 'utf8'
+            ctx.inst(rule, fid, repo.norm(c), ok, 'UTF-8 whatever the locale' if ok else
+                     'the output file is opened in text mode with encoding %s: under a non-UTF-8 locale a merged notebook with non-ASCII text either fails to encode after the '
+                     'file was truncated (a 0-byte "result", for the git driver in place of the user\'s file) or is written in an encoding that is not valid JSON/UTF-8' % (
+                         repr(enc) if enc is not None else '<locale default>'), c)
+    if n == 0:
+        raise AnalysisError('no text-mode open of an output file found in main_merge / the store endpoint')
+
+
+@extra('C04', 'R04.12', 'the files the merged notebook / the decisions are written to are opened with an explicit UTF-8 encoding (nbformat notebooks are UTF-8 JSON)', 1)
+def r04_12(ctx, rule):
+    _r_output_utf8(ctx, rule)
+
+
+@extra('C08', 'R08.15', 'the files the merged notebook / the decisions are written to are opened with an explicit UTF-8 encoding', 1)
+def r08_15(ctx, rule):
+    _r_output_utf8(ctx, rule)
